@@ -153,10 +153,10 @@ def merge(results):
         m["case_hashes"].update(r["case_hashes"])
         for k, v in r["cover"].items():
             m["cover"].setdefault(k, set()).update(v)
-        for k, (val, tol) in r["devs"].items():
+        for k, rec in r["devs"].items():
             cur = m["devs"].get(k)
-            if cur is None or val > cur[0]:
-                m["devs"][k] = [val, tol]
+            if cur is None or rec[0] > cur[0]:
+                m["devs"][k] = rec
         for smp in r["samples"]:
             key = json.dumps(smp, sort_keys=True)
             if key not in m.setdefault("_sample_keys", set()) and len(m["samples"]) < 8:
@@ -250,7 +250,7 @@ def finish(pid, tier, seed, mod, results, problems, wall, replay_path):
                 "monitor_evaluations": m["monitors"],
                 "counters": m["counters"],
                 "classes_covered": {k: sorted(v) for k, v in m["cover"].items()},
-                "max_deviation_vs_tolerance": {k: {"max": v[0], "tol": v[1]} for k, v in m["devs"].items()},
+                "max_deviation_vs_tolerance": {k: {"max": v[0], "tol": v[1], "at": v[2] if len(v) > 2 else None} for k, v in m["devs"].items()},
                 "truncated_by_time": m["truncated"],
                 "shards": len(results),
                 "notes": m["notes"][:20],
